@@ -31,7 +31,7 @@ LEVEL = 'exploration'
 QUICK_RUNS = 60000
 QUICK_BUDGET_S = 60
 THOROUGH_BUDGET_S = 600
-RULE = ('authentication line sequences over a 29-symbol alphabet (all sequences of length '
+RULE = ('authentication line sequences over a 41-symbol alphabet (all sequences of length '
         '<= 3 over 9 symbols x 3 mechanism-outcome scripts as a sweep; random ones of up to '
         '40 lines crossing the rejection limit) x mechanism outcome scripts (scripted '
         'mechanism: accept/challenge/reject; real mechanisms with credentials present/absent '
@@ -41,7 +41,8 @@ STATE_MEASURE = 'distinct (model state, rejects, mechanism, last response class)
 PROBES = ['sixth-rejection', 'begin-out-of-turn', 'no-nul', 'line-too-long', 'authenticated',
           'cookie-accepted', 'cookie-wrong-hash-rejected', 'external-accepted',
           'anonymous-accepted', 'challenge-issued', 'cut-between-cr-and-lf',
-          'bytes-after-begin-same-read', 'keyring-created', 'keyring-refused']
+          'bytes-after-begin-same-read', 'keyring-created', 'keyring-refused',
+          'overlapping-cookie-exchanges']
 COMPONENTS = {
     'real': ['txdbus.bus.BusProtocol / txdbus.protocol.BasicDBusProtocol (server role)',
              'txdbus.authentication.BusAuthenticator (tracing subclass on handleAuthMessage)',
@@ -93,6 +94,16 @@ ALPHABET = [
     b'DATA ' + h(b'a b  c'),                   # 28
     b'AUTH DBUS_COOKIE_SHA1 ' + h(b'1000'),    # 29 the user given as a uid
     b'AUTH EXTERNAL ' + h(b'0'),               # 30
+    b'ok',                                     # 31 words that are not client commands
+    b'continue',                               # 32
+    b'OK 1234',                                # 33
+    b'REJECTED ANONYMOUS',                     # 34
+    b'AGREE_UNIX_FD',                          # 35
+    b'BEG\xc3\xa9IN',                          # 36 look-alikes with bytes >= 0x80 inside the word
+    b'AU\xffTH ANONYMOUS',                     # 37
+    b'DA\x80TA',                               # 38
+    b'begin',                                  # 39
+    b'reject',                                 # 40
 ]
 SWEEP_SYMS = [1, 10, 3, 4, 5, 6, 7, 13, 16]
 
@@ -484,6 +495,17 @@ def scenario(ctx):
         peer = RefSaslClient(kind, keyring=os.path.join(home, '.dbus-keyrings'),
                              after_begin=hello if ds.flag(0.5) else b'')
         conn.attach(peer, proto, a_first=False)
+        if kind == 'COOKIE' and ds.flag(0.5):
+            # a second peer of the same bus starts a cookie exchange of its own and abandons it
+            # (CANCEL / ERROR / close) while the first one is under way
+            sim.probe('overlapping-cookie-exchanges')
+            other = RefSaslClient('COOKIE-cancel', keyring=os.path.join(home, '.dbus-keyrings'))
+            other.cancel_with = ds.pick([b'CANCEL', b'ERROR "changed my mind"'])
+            proto2 = t_bus.BusProtocol()
+            proto2.factory = f
+            conn2 = net.Connection(sim, 's2', None, node, unix=True,
+                                   creds=(4243, 1000, 1000) if creds_present else None)
+            conn2.attach(other, proto2, a_first=False)
         sched.run(300, None, invariant)
         sched.drain(100, None, invariant)
         authed = tracer.authenticated_calls == 1
@@ -519,7 +541,7 @@ def scenario(ctx):
     else:
         n = 1 + ds.choose(40 if ds.flag(0.3) else 10)
         w = [1, 4, 3, 4, 3, 3, 3, 1, 3, 2, 5, 2, 1, 2, 2, 1, 1, 1, 0.5, 1, 0.5, 1, 1, 1, 0.7, 0.7, 0.7,
-             0.5, 0.7, 1, 0.7]
+             0.5, 0.7, 1, 0.7, 1, 0.7, 0.7, 0.5, 0.5, 1, 0.7, 0.7, 0.7, 0.5]
         if cfg == 'scripted':
             w[1] = w[2] = w[8] = w[9] = 0.3
         else:
